@@ -51,7 +51,8 @@ def run(ctx):
                 f"OBJECT shared by two nodes (and by all cases of the run) that declare 1 / 2 / 3 / 11 outputs or other output names, in "
                 f"both orders; (6) hand-built jobs (TaskBuilder.from_callable + with_values, raw TaskInstance) with keyword / positional edges "
                 f"into parameters that also hold a static value (recorded default, 99, None, 0): the upstream value must win; (7) one upstream value (ordinary / None / 0 / '' / False; plain or yielded) consumed by two tasks and by two "
-                f"parameters of one task, tasks placed each on its own worker / all on one / consumers together (one real Memory per worker); constants {consts}; "
+                f"parameters of one task, tasks placed each on its own worker / all on one / consumers together (one real Memory per worker); (8) hand-built generators whose names / output names contain '.', ':', '/', '|' or digits so "
+                f"that two datasets coincide when joined, consumed on other workers; constants {consts}; "
                 "non-trivial = the graph has an edge; graphs are built with fluent.Node/Payload/Action, lowered by graph2job, "
                 "every task run by execute_sequence/run/Memory over a dict-backed shm; TLC evaluates Lowering!Post",
         "clauses": ["tasks_are_not_the_nodes", "edges_are_not_the_inputs", "outputs_are_not_the_declared",
